@@ -190,7 +190,13 @@ class Path:
     def branch(self, cond) -> bool:
         if isinstance(cond, bool):
             return cond
-        c = z3.simplify(sym.tobool_t(cond))
+        t0 = sym.tobool_t(cond)
+        for p in self.pc:
+            # the condition is literally a conjunct of the path condition (e.g. the UTF-8 validity of
+            # bytes that were assumed valid): true on this path, no solver call, no decision consumed
+            if p.eq(t0):
+                return True
+        c = z3.simplify(t0)
         if z3.is_true(c):
             return True
         if z3.is_false(c):
@@ -904,6 +910,15 @@ class Interp:
             if not all(isinstance(m.value, int) for m in members):
                 raise Unsupported("symbolic lookup in a non-integer enum")
             valid = Or(*[value == m.value for m in members])
+            # a pure `_missing_` that yields one fixed member for every unknown value: no fork,
+            # the result is the member  ite(valid, value, fallback)
+            miss = cls.lookup("_missing_")
+            if (miss is not MISSING and isinstance(miss, ClassMethod) and isinstance(miss.f, Function)
+                    and not self.in_merge and purity.func_pure(self, miss.f)):
+                r = self.merged_call(miss.f, [cls, value], {})
+                if isinstance(r, EnumMember) and r.cls is cls and isinstance(r.value, int) and not isinstance(r.value, bool):
+                    v = sym.ite(valid, value, r.value)
+                    return r if isinstance(v, int) else SEnum(cls, v)
             if self.path.branch(valid):
                 return SEnum(cls, value)
             return self._enum_missing(cls, value)
